@@ -132,6 +132,14 @@ func (c *Interceptor) BindLocalStream(
 	return c.estimator.AddStream(info, writer)
 }
 
+// UnbindLocalStream is called when the stream is removed. The bandwidth
+// estimator releases what it holds for the stream, if it supports that.
+func (c *Interceptor) UnbindLocalStream(info *interceptor.StreamInfo) {
+	if r, ok := c.estimator.(interface{ RemoveStream(ssrc uint32) }); ok {
+		r.RemoveStream(info.SSRC)
+	}
+}
+
 // Close closes the interceptor and the associated bandwidth estimator.
 func (c *Interceptor) Close() error {
 	return c.estimator.Close()
